@@ -298,7 +298,7 @@ def run(ctx):
     sig, doms = source_sig()
     src = list(build.universe("rigid", sig, doms, depth, 3))
     if ctx.quick:
-        src = [r for r in src if len(r[2]) <= 1] + [r for r in src if len(r[2]) == 2][::2]
+        pass  # complete at this depth in the quick tier
     interps = interpretations(ctx.quick)
     tsig, tdoms = tensor_sig()
     k = build.kit("tensor")
